@@ -379,6 +379,31 @@ def run(ck):
         ck.violation(SITE + ":constants", "Cste<double>::sqrt3/epsilon/min are not the expected constants: %s" % consts_line,
                      {"consts": consts_line, "sqrt3": sqrt3}, True)
 
+    # ---- the cube-root helpers (double overload, generic pow-based template, float and long double overloads):
+    # r = cbrt(x) must have the sign of x and r^3 = x up to the accuracy of the type (exact rational test)
+    xs_c = [0.0, 1.0, -1.0, 8.0, -27.0, 1e-300, -1e300, 2.0, -0.001]
+    xs_c += [rng.uniform(-10, 10) * 10.0 ** rng.randint(-30, 30) for _ in range(200)]
+    pcb = ck.run([harness], input="".join("cbrt %s\n" % bits(x) for x in xs_c))
+    cb = pcb.stdout.splitlines()
+    names_c = [("cbrt(double)", Fr(1, 10 ** 14), False), ("cbrt<T> generic template (pow)", Fr(1, 10 ** 13), False),
+               ("cbrt(float)", Fr(1, 10 ** 6), True), ("cbrt(long double)", Fr(1, 10 ** 14), False)]
+    cbrt_checked = 0
+    for x, a in zip(xs_c, cb + ["missing"] * (len(xs_c) - len(cb))):
+        f_ = a.split()
+        if len(f_) != 5 or f_[0] != "c":
+            ck.violation(SITE + ":cbrt:no-answer", "no answer for cbrt(%r): %s" % (x, a[:60]), {"x": x, "answer": a}, False)
+            break
+        for (nm, tol, isf), tok in zip(names_c, f_[1:]):
+            r = dbl(tok)
+            xr = struct.unpack("<f", struct.pack("<f", x))[0] if isf else x   # the float overload sees x rounded to float
+            if isf and (abs(xr) < 1e-37 or abs(xr) > 1e37):
+                continue
+            cbrt_checked += 1
+            good = (r == r and abs(r) != float("inf") and (r > 0) == (xr > 0) and (r < 0) == (xr < 0)
+                    and abs(Fr(r) ** 3 - Fr(xr)) <= tol * abs(Fr(xr)))
+            if not good:
+                ck.violation(SITE + ":cbrt:" + nm, "CubicRoots::%s: cbrt(%r) = %r, whose cube is %r" % (nm, xr, r, r ** 3 if r == r else r),
+                             {"function": nm, "x": xr, "returned": r, "answer_line": a}, True)
     # ---- cases: corpus, directed, then seeded random per class
     cases = [("corpus", co, vp) for (co, vp) in load_corpus()]
     directed = [(1, 0, 0, 1), (1, 0, 0, -8), (2, 0, 0, 2), (-1, 0, 0, 27), (1, 3, 3, 2), (1, -3, 3, -9), (1, 0, 0, 0),
